@@ -243,7 +243,9 @@ impl Prop for C13 {
         // a run whose range is empty (start above the tip): with stale *.tmp files of its tables in the folder
         if rng.chance(1, 4) {
             let mut r = RunSpec::new(*rng.pick(&["csvdump", "csvdump", "unspentcsvdump", "balances"]));
-            r.start = Some(t + rng.range(1, 5));
+            // above every height the index admits a record for (blocks downloaded ahead of the tip included)
+            let top = scn.extras.iter().filter_map(|x| x.index.as_ref()).filter(|ix| ix.status & 12 != 0).map(|ix| ix.height).max().unwrap_or(0).max(t);
+            r.start = Some(top + rng.range(1, 5));
             r.threads = 2;
             r.fresh_dump = false;
             r.fresh_data = false;
@@ -351,7 +353,8 @@ impl Prop for C13 {
         }
         for (i, (r, o)) in scn.runs.iter().zip(outs.iter()).enumerate() {
             let stems = stems_of(&r.callback);
-            let empty_range = r.start.map(|x| x > m.tip()).unwrap_or(false);
+            let top = scn.extras.iter().filter_map(|x| x.index.as_ref()).filter(|ix| ix.status & 12 != 0).map(|ix| ix.height).max().unwrap_or(0).max(m.tip());
+            let empty_range = r.start.map(|x| x > top).unwrap_or(false);
             if empty_range && stems.iter().any(|s| o.dump_before.contains_key(&format!("{}.csv.tmp", s))) {
                 st.probe("empty_range_run_with_stale_tmp");
             }
